@@ -436,6 +436,73 @@ _CUT_VARIANTS = [
       g=_CALLER('genDesc').replace('\tdesc, err := genDesc(digestAlg)\n', '\tdesc, _ := genDesc(digestAlg)\n'))),
 ]
 
+# ---- (11) CLASS "the descriptor generator is evaluated at most once on every path" (it drains the caller's io.Reader) ----
+V = 'verifier/verifier.go'
+_P_SIGN_CALL = '\t\tsig, signerInfo, err := s.generateSignature(ctx, desc, opts, ks, metadata, mergedConfig)\n'
+_P_BLOB_CALL = '\t\treturn s.generateSignature(ctx, desc, opts, ks, metadata, mergedConfig)\n'
+_P_ENV_CALL = '\t\treturn s.generateSignatureEnvelope(ctx, desc, opts)\n'
+_P_EVAL = '\t// get descriptor to sign\n\tdesc, err := getDescriptor(ks, descGenFunc)\n\tif err != nil {\n\t\treturn nil, nil, err\n\t}\n'
+_P_LOG = '\tlogger.Debugf("Using plugin %v with capabilities %v to sign blob using descriptor %+v", metadata.Name, metadata.Capabilities, desc)\n'
+_P_LOG_NODESC = '\tlogger.Debugf("Using plugin %v with capabilities %v to sign blob", metadata.Name, metadata.Capabilities)\n'
+_P_HELPER_HEAD = 'func (s *PluginSigner) generateSignature(ctx context.Context, desc ocispec.Descriptor, opts notation.SignerSignOptions, ks signature.KeySpec, metadata *plugin.GetMetadataResponse, pluginConfig map[string]string) ([]byte, *signature.SignerInfo, error) {\n\tlogger := log.GetLogger(ctx)\n\tlogger.Debug("Generating signature by plugin")\n\tgenericSigner := GenericSigner{\n'
+_P_HELPER_TAIL = '\t\t\tkeySpec:      ks,\n\t\t},\n\t}\n\topts.SigningAgent = fmt.Sprintf("%s %s/%s", signingAgent, metadata.Name, metadata.Version)\n\treturn genericSigner.Sign(ctx, desc, opts)\n}\n'
+# the refactoring of seed C07-6: generateSignature split into genericSigner() + withPluginAgent(); each public method calls
+# the GenericSigner method of its own kind
+_SPLIT = [
+ (SP, _P_SIGN_CALL, '\t\tlogger.Debug("Generating signature by plugin")\n\t\tsig, signerInfo, err := s.genericSigner(ctx, ks, mergedConfig).Sign(ctx, desc, withPluginAgent(opts, metadata))\n'),
+ (SP, _P_BLOB_CALL, '\t\tlogger.Debug("Generating signature by plugin")\n\t\treturn s.genericSigner(ctx, ks, mergedConfig).SignBlob(ctx, descGenFunc, withPluginAgent(opts, metadata))\n'),
+ (SP, _P_HELPER_HEAD, 'func (s *PluginSigner) genericSigner(ctx context.Context, ks signature.KeySpec, pluginConfig map[string]string) *GenericSigner {\n\treturn &GenericSigner{\n'),
+ (SP, _P_HELPER_TAIL, '\t\t\tkeySpec:      ks,\n\t\t},\n\t}\n}\n\nfunc withPluginAgent(opts notation.SignerSignOptions, metadata *plugin.GetMetadataResponse) notation.SignerSignOptions {\n\topts.SigningAgent = fmt.Sprintf("%s %s/%s", signingAgent, metadata.Name, metadata.Version)\n\treturn opts\n}\n'),
+]
+# ... without the slip: the generator is evaluated by the branch that needs the descriptor only
+_EVAL_IN_ENVELOPE_BRANCH = [
+ (SP, _P_EVAL, ''), (SP, _P_LOG, _P_LOG_NODESC),
+ (SP, _P_ENV_CALL, '\t\tdesc, err := getDescriptor(ks, descGenFunc)\n\t\tif err != nil {\n\t\t\treturn nil, nil, err\n\t\t}\n\t\treturn s.generateSignatureEnvelope(ctx, desc, opts)\n'),
+]
+_INLINE_GENERIC = ('\t\tgenericSigner := GenericSigner{signer: &pluginPrimitiveSigner{ctx: ctx, plugin: s.plugin, keyID: s.keyID, pluginConfig: mergedConfig, keySpec: ks}}\n'
+                   '\t\topts.SigningAgent = fmt.Sprintf("%s %s/%s", signingAgent, metadata.Name, metadata.Version)\n'
+                   '\t\treturn genericSigner.SignBlob(ctx, descGenFunc, opts)\n')
+_G_EVAL = '\tdesc, err := getDescriptor(ks, genDesc)\n\tif err != nil {\n\t\treturn nil, nil, err\n\t}\n\treturn s.Sign(ctx, desc, opts)\n'
+_G_RET = '\treturn genDesc(digestAlg)\n}\n'
+_JOB = ('type blobJob struct {\n\tks  signature.KeySpec\n\tgen notation.BlobDescriptorGenerator\n}\n\n'
+        'func (j *blobJob) describe() (ocispec.Descriptor, error) {\n\treturn getDescriptor(j.ks, j.gen)\n}\n\n')
+_V_EVAL = '\tdesc, err := descGenFunc(digestAlgo)\n'
+_N_MAKE = '\tgetDescFunc := getDescriptorFunc(ctx, blobReader, signBlobOpts.ContentMediaType, signBlobOpts.UserMetadata)\n'
+_ONCE_VARIANTS = [
+ # the slip of seed C07-6 in its own shape, and its benign twin
+ dict(name='plugin-signblob-split-helpers-evaluates-then-delegates', expect='flagged(blob-descriptor/generator-called-once)', edits=_SPLIT),
+ dict(name='benign-plugin-signblob-split-helpers-delegates', expect='silent', edits=_SPLIT + _EVAL_IN_ENVELOPE_BRANCH),
+ # the same slip in the base tree's shape (generateSignature kept for Sign)
+ dict(name='plugin-signblob-evaluates-then-delegates-to-generic-signblob', file=SP, expect='flagged(blob-descriptor/generator-called-once)',
+      find=_P_BLOB_CALL, replace=_INLINE_GENERIC),
+ dict(name='benign-plugin-signblob-delegates-to-generic-signblob', expect='silent', edits=[(SP, _P_BLOB_CALL, _INLINE_GENERIC)] + _EVAL_IN_ENVELOPE_BRANCH),
+ # other shapes of a second evaluation
+ dict(name='generic-signblob-evaluates-for-the-log-first', file=S, expect='flagged(blob-descriptor/generator-called-once)', find=_G_EVAL,
+      replace='\tif d, derr := getDescriptor(ks, genDesc); derr == nil {\n\t\tlogger.Debugf("Signing blob %v", d.Digest)\n\t}\n' + _G_EVAL),
+ dict(name='generic-signblob-retries-in-a-loop', file=S, expect='flagged(blob-descriptor/generator-called-once)', find=_G_EVAL,
+      replace='\tvar desc ocispec.Descriptor\n\tfor attempt := 0; attempt < 2; attempt++ {\n\t\tif desc, err = getDescriptor(ks, genDesc); err == nil {\n\t\t\tbreak\n\t\t}\n\t}\n\tif err != nil {\n\t\treturn nil, nil, err\n\t}\n\treturn s.Sign(ctx, desc, opts)\n'),
+ dict(name='getdescriptor-retries-on-error', file=S, expect='flagged(blob-descriptor/generator-called-once)', find=_G_RET,
+      replace='\tdesc, err := genDesc(digestAlg)\n\tif err != nil {\n\t\tdesc, err = genDesc(digestAlg)\n\t}\n\treturn desc, err\n}\n'),
+ dict(name='verifier-evaluates-through-closure-twice', file=V, expect='flagged(blob-descriptor/generator-called-once)', find=_V_EVAL,
+      replace='\tdescribe := func() (ocispec.Descriptor, error) { return descGenFunc(digestAlgo) }\n\tif d, derr := describe(); derr == nil {\n\t\tlogger.Debugf("Blob digest: %v", d.Digest)\n\t}\n\tdesc, err := describe()\n'),
+ dict(name='wrapper-probes-the-reader-before-handing-on', file=N, expect='flagged(blob-descriptor/generator-called-once)', find=_N_MAKE,
+      replace=_N_MAKE + '\tif _, err := getDescFunc(digest.Canonical); err != nil {\n\t\treturn nil, nil, err\n\t}\n'),
+ dict(name='generic-signblob-object-holding-generator-described-twice', expect='flagged(blob-descriptor/generator-called-once)', edits=[
+      (S, _G_EVAL, '\tjob := &blobJob{ks: ks, gen: genDesc}\n\tif _, err := job.describe(); err != nil {\n\t\treturn nil, nil, err\n\t}\n\tdesc, err := job.describe()\n\tif err != nil {\n\t\treturn nil, nil, err\n\t}\n\treturn s.Sign(ctx, desc, opts)\n'),
+      (S, _GETDESC, _JOB + _GETDESC)]),
+ # behaviour-preserving shapes around the single evaluation
+ dict(name='benign-verifier-evaluates-through-closure-once', file=V, expect='silent', find=_V_EVAL,
+      replace='\tdescribe := func() (ocispec.Descriptor, error) { return descGenFunc(digestAlgo) }\n\tdesc, err := describe()\n'),
+ dict(name='benign-getdescriptor-two-helpers-deep', expect='silent', edits=[
+      (S, _G_RET, '\treturn describeWith(genDesc, digestAlg)\n}\n'),
+      (SP, 'func (s *PluginSigner) getKeySpec(', 'func describeWith(gen notation.BlobDescriptorGenerator, alg digest.Algorithm) (ocispec.Descriptor, error) {\n\tdesc, err := gen(alg)\n\tif err != nil {\n\t\treturn ocispec.Descriptor{}, err\n\t}\n\treturn desc, nil\n}\n\nfunc (s *PluginSigner) getKeySpec(')]),
+ dict(name='benign-generic-signblob-evaluates-in-either-branch', file=S, expect='silent', find=_G_EVAL,
+      replace='\tvar desc ocispec.Descriptor\n\tif opts.SignatureMediaType == "" {\n\t\tdesc, err = getDescriptor(ks, genDesc)\n\t\tlogger.Debug("No signature media type requested")\n\t} else {\n\t\tdesc, err = getDescriptor(ks, genDesc)\n\t}\n\tif err != nil {\n\t\treturn nil, nil, err\n\t}\n\treturn s.Sign(ctx, desc, opts)\n'),
+ dict(name='benign-generic-signblob-object-holding-generator-described-once', expect='silent', edits=[
+      (S, _G_EVAL, '\tjob := &blobJob{ks: ks, gen: genDesc}\n\tdesc, err := job.describe()\n\tif err != nil {\n\t\treturn nil, nil, err\n\t}\n\treturn s.Sign(ctx, desc, opts)\n'),
+      (S, _GETDESC, _JOB + _GETDESC)]),
+]
+
 VARIANTS = [
  dict(name='F11-reintroduced', file=N, expect='flagged(reader/)',
       find='''	var payload envelope.Payload
@@ -591,4 +658,4 @@ VARIANTS = [
  # ======== second pass: classes of rewrites rather than single shapes ========
  # (5) CLASS "value computed by a module helper / parameter narrowed or widened": the expiry is the result of a helper that is
  #     handed the signing time and the duration (or the options, or the request), or a helper stores it into the request
-] + _EXPIRY_VARIANTS + _RETURN_VARIANTS + _OBJECT_VARIANTS + _CTOR_VARIANTS + _TABLE_VARIANTS + _CUT_VARIANTS
+] + _EXPIRY_VARIANTS + _RETURN_VARIANTS + _OBJECT_VARIANTS + _CTOR_VARIANTS + _TABLE_VARIANTS + _CUT_VARIANTS + _ONCE_VARIANTS
